@@ -178,7 +178,8 @@ def run_one(variant, typ, profile, seed, hists, steps, mode="native", extra=(), 
         return r
     if validate and mode != "unscripted":
         with open(trace) as f:
-            rc2, out2, err2, dt2 = sh([driver_exe()], stdin=f, timeout=timeout)
+            # the model's run time is not what is being checked: generous limit, so that a loaded machine raises no alarm
+            rc2, out2, err2, dt2 = sh([driver_exe()], stdin=f, timeout=max(timeout, 1500))
         r.wall += dt2
         if rc2 == -9:
             r.mismatches.append("the Lean model did not finish validating the trace in time")
